@@ -2,6 +2,6 @@
    driver.  ExtrOcamlBasic only (bool, option, list, pairs, unit, sumbool map
    to OCaml's own types); Z / positive / N / nat stay the extracted inductives. *)
 From Coq Require Import Extraction ExtrOcamlBasic ZArith List.
-From Alliance Require Import Num KMap Types Monad Model Step IO Spec.
+From Alliance Require Import Num KMap Types Monad Model Step Queries IO Spec.
 Extraction Language OCaml.
-Extraction "model.ml" init_state step parse_op print_state parse_state run_trace check_step with_ctx step_err c04_detail probe_exit probe_claim probe_enter reported_balance.
+Extraction "model.ml" init_state step parse_op print_state parse_state run_trace check_step with_ctx step_err c04_detail probe_exit probe_claim probe_enter reported_balance answer_query reimport.
